@@ -673,6 +673,10 @@ def static_tie(cm, chk, pid, repo):
             text = C01_FILE % (loopit(repo), td_convert(repo), secular_condition(repo))
             info["translated"] = ["redfieldtensor.py:_loopit", "tdredfieldtensor.py:TDRedfieldRelaxationTensor._convert_operators_2_tensor",
                                   "relaxationtensor.py:RelaxationTensor.secularize (zeroing condition)"]
+            import translate_c01
+            t2, w2 = translate_c01.extra(repo)
+            text += t2
+            info["translated"] += w2
         elif pid == "C04":
             body, what = tensor_transforms(repo)
             body2, what2 = operator_transforms(repo)
